@@ -141,7 +141,7 @@ TEXTS = [
 
 def gen(rng, tier):
     cases = []
-    n = 260 if tier == "quick" else 3000
+    n = 260 if tier == "quick" else 12000
     for i in range(n):
         if i % 4 == 3:
             base = mc.gen_any_mrs(rng)
